@@ -45,6 +45,11 @@ type Server struct {
 	userCommandHandler   UserCommandHandler
 	commandExecutors     Executors
 	commandMutex         sync.Mutex
+	lifecycleMutex       sync.Mutex
+	stopping             bool
+	liveConns            map[net.Conn]struct{}
+	acceptGroup          sync.WaitGroup
+	connGroup            sync.WaitGroup
 }
 
 // NewServer returns a new server instance.
@@ -63,6 +68,11 @@ func NewServer() *Server {
 		userCommandHandler:   nil,
 		commandExecutors:     Executors{},
 		commandMutex:         sync.Mutex{},
+		lifecycleMutex:       sync.Mutex{},
+		stopping:             false,
+		liveConns:            map[net.Conn]struct{}{},
+		acceptGroup:          sync.WaitGroup{},
+		connGroup:            sync.WaitGroup{},
 	}
 	server.SetPort(DefaultPort)
 	server.registerCoreExecutors()
@@ -94,6 +104,10 @@ func (server *Server) RegisterExexutor(cmd string, executor Executor) {
 
 // Start starts the server.
 func (server *Server) Start() error {
+	server.lifecycleMutex.Lock()
+	server.stopping = false
+	server.lifecycleMutex.Unlock()
+
 	password, requirePass := server.ConfigRequirePass()
 	if requirePass {
 		if !server.HasClearTextPasswordAuthenticator("", password) {
@@ -112,25 +126,57 @@ func (server *Server) Start() error {
 	}
 
 	if server.IsPortEnabled() {
-		go server.serve()
+		server.lifecycleMutex.Lock()
+		l := server.portListener
+		server.lifecycleMutex.Unlock()
+		if l != nil {
+			server.acceptGroup.Add(1)
+			go server.serve(l)
+		}
 	}
 
 	if server.IsTLSPortEnabled() {
-		go server.tlsServe()
+		server.lifecycleMutex.Lock()
+		l := server.tlsPortListener
+		tlsConfig := server.tlsConfig
+		server.lifecycleMutex.Unlock()
+		if l != nil {
+			server.acceptGroup.Add(1)
+			go server.tlsServe(l, tlsConfig)
+		}
 	}
 
 	return nil
 }
 
-// Stop stops the server.
+// Stop stops the server. It closes the listeners and every accepted connection, and
+// waits for the accept loops and the connection goroutines to finish, so it must not
+// be called from inside a command handler.
 func (server *Server) Stop() error {
-	if err := server.ConnManager.Stop(); err != nil {
-		return err
-	}
+	server.lifecycleMutex.Lock()
+	server.stopping = true
+	server.lifecycleMutex.Unlock()
 
 	if err := server.close(); err != nil {
 		return err
 	}
+	server.acceptGroup.Wait()
+
+	if err := server.ConnManager.Stop(); err != nil {
+		return err
+	}
+
+	// Closes the accepted sockets which are not registered yet too.
+	server.lifecycleMutex.Lock()
+	conns := make([]net.Conn, 0, len(server.liveConns))
+	for conn := range server.liveConns {
+		conns = append(conns, conn)
+	}
+	server.lifecycleMutex.Unlock()
+	for _, conn := range conns {
+		conn.Close()
+	}
+	server.connGroup.Wait()
 
 	if server.IsPortEnabled() {
 		addr := net.JoinHostPort(server.Addr, strconv.Itoa(server.ConfigPort()))
@@ -155,6 +201,9 @@ func (server *Server) Restart() error {
 
 // open opens a listen socket.
 func (server *Server) open() error {
+	server.lifecycleMutex.Lock()
+	defer server.lifecycleMutex.Unlock()
+
 	var err error
 
 	if server.IsPortEnabled() {
@@ -190,6 +239,9 @@ func (server *Server) open() error {
 
 // close closes a listening socket.
 func (server *Server) close() error {
+	server.lifecycleMutex.Lock()
+	defer server.lifecycleMutex.Unlock()
+
 	if server.portListener != nil {
 		err := server.portListener.Close()
 		if err != nil {
@@ -209,44 +261,67 @@ func (server *Server) close() error {
 	return nil
 }
 
-// serve handles client connections.
-func (server *Server) serve() error {
-	l := server.portListener
-	if l != nil {
-		defer l.Close()
+// trackConn adds the accepted connection to the live connections unless the server is stopping.
+func (server *Server) trackConn(conn net.Conn) bool {
+	server.lifecycleMutex.Lock()
+	defer server.lifecycleMutex.Unlock()
+	if server.stopping {
+		return false
 	}
+	server.liveConns[conn] = struct{}{}
+	return true
+}
+
+// untrackConn removes the accepted connection from the live connections.
+func (server *Server) untrackConn(conn net.Conn) {
+	server.lifecycleMutex.Lock()
+	defer server.lifecycleMutex.Unlock()
+	delete(server.liveConns, conn)
+}
+
+// serve handles client connections.
+func (server *Server) serve(l net.Listener) error {
+	defer server.acceptGroup.Done()
+	defer l.Close()
+
 	for {
-		if l == nil {
-			break
-		}
 		conn, err := l.Accept()
 		if err != nil {
 			return err
 		}
+		if !server.trackConn(conn) {
+			conn.Close()
+			continue
+		}
 
-		go server.receive(conn, nil)
+		server.connGroup.Add(1)
+		go func() {
+			defer server.connGroup.Done()
+			defer server.untrackConn(conn)
+			server.receive(conn, nil)
+		}()
 	}
-
-	return nil
 }
 
 // tlsServe handles client connections with TLS.
-func (server *Server) tlsServe() error {
-	l := server.tlsPortListener
-	if l != nil {
-		defer l.Close()
-	}
-	tlsConfig := server.tlsConfig
+func (server *Server) tlsServe(l net.Listener, tlsConfig *tls.Config) error {
+	defer server.acceptGroup.Done()
+	defer l.Close()
+
 	for {
-		if l == nil {
-			break
-		}
 		conn, err := l.Accept()
 		if err != nil {
 			return err
 		}
+		if !server.trackConn(conn) {
+			conn.Close()
+			continue
+		}
 
+		server.connGroup.Add(1)
 		go func() {
+			defer server.connGroup.Done()
+			defer server.untrackConn(conn)
 			tlsConn := tls.Server(conn, tlsConfig)
 			if err := tlsConn.Handshake(); err != nil {
 				log.Error(err)
@@ -257,8 +332,6 @@ func (server *Server) tlsServe() error {
 			server.receive(tlsConn, &tlsState)
 		}()
 	}
-
-	return nil
 }
 
 // receive handles a client connection.
